@@ -27,6 +27,7 @@ func c13Candidates(lvl int) []string {
 	m := gen.Magnitudes
 	g = gen.Alt(g, gen.Seq(gen.Lit("1.", "1.a", "1.rc.", "1.0.", "1-a."), m), gen.Seq(m, gen.Lit("", ".1", ".a")), gen.Seq(gen.Lit("1.", "1.a", "1.rc.", "1.0."), gen.Alt(gen.LeadingZeros, gen.Lit("7", "8", "9", "10", "11"))))
 	g = gen.Alt(g, gen.SlotFamily("gem"))
+	g = gen.Alt(g, gen.Seq(gen.Lit("1.2.3.4.5.6.7.8.", "1.1.1.1.1.1.1.1.1.1.1.1.1.1.1.1."), gen.Lit("9", "10", "0", "a")), gen.Lit("1.2.3.4.rc1-beta.2", "1.2.3.4.rc1-beta.3", "1.2.3.4.rc1.beta.2", "1.2.3.4.5.rc1-beta.2", "1.2.3.4.5.rc1-beta.10"))
 	for _, v := range ref.GemVectors {
 		g = append(g, v[0], v[1])
 	}
